@@ -20,7 +20,7 @@ class Spec:
     assumptions = COMMON_ASSUMPTIONS
     case_timeout = 60.0
     sizes = {"quick": 100, "thorough": 2000}
-    budgets = {"quick": 60.0, "thorough": 600.0}
+    budgets = {"quick": 150.0, "thorough": 900.0}
 
     def n_cases(self, tier):
         return self.sizes[tier]
@@ -612,7 +612,7 @@ class C12(RunSpec):
         p["root"] = _cycle(GEN_POP, idx)
         p["leaf"] = _cycle(GEN_POP + CMA_ENGINES, idx, 1)
         p["levels"] = [2, 1, 2]
-        p["maximize"] = bool((idx // 2) % 2)
+        p["maximize"] = bool((idx // 8) % 2)  # independent of the root cycle (period 8) and the leaf cycle (period 11)
         p["fams"] = ["plateau", "constant", "rastrigin", "sphere", "plateau", "funnel"]
         p["gscs"] = ["melimit", "evals"]
         p["lscs"] = ["dontstop", "melimit"]
@@ -757,7 +757,7 @@ class C17(DirectSpec):
         "points for boxes of every class; exact rational oracle; distinct non-trivial = distinct (method, box class, point class) cells with >=1 input outside the box"
     )
     sizes = {"quick": 210, "thorough": 21000}
-    budgets = {"quick": 60.0, "thorough": 900.0}
+    budgets = {"quick": 150.0, "thorough": 1500.0}
     assumptions = [
         "floats are treated as exact rationals (fractions.Fraction); tolerance for moved coordinates is 8*eps*(|x|+|lower|+|upper|), vacuous when it exceeds the range",
         "only finite inputs and boxes with lower < upper",
@@ -777,7 +777,7 @@ class C16(DirectSpec):
         "(stack shape, direction) with >=1 call past a cutoff or repeated precision hits"
     )
     sizes = {"quick": 2000, "thorough": 100000}
-    budgets = {"quick": 60.0, "thorough": 900.0}
+    budgets = {"quick": 150.0, "thorough": 1500.0}
     assumptions = ["the reference model of each wrapper (vlib/monitors/c16.py: Model) is the specification", "objective = first coordinate of the point (so the harness controls every returned value)"]
 
     def floors(self, tier):
@@ -798,7 +798,7 @@ class C15(DirectSpec):
         "distinct non-trivial = distinct (class, n, dim, factor, truncation) whose reference result has >=2 and <K seeds"
     )
     sizes = {"quick": 4000, "thorough": 200000}
-    budgets = {"quick": 75.0, "thorough": 1200.0}
+    budgets = {"quick": 150.0, "thorough": 1800.0}
     assumptions = [
         "vlib/monitors/c15.py:ref_nbc is the definition; threshold decisions are three-valued (relative band 1e-9)",
         "K = 0 has no defined answer and is excluded (counted); cases where int(n*truncation) in floats differs from the exact floor are excluded (counted)",
@@ -825,7 +825,7 @@ class C13(DirectSpec):
         "(component tie pattern) or (engine mix, mechanism) twins whose input had >=3 distinct fitness values"
     )
     sizes = {"quick": 2000, "thorough": 50000}
-    budgets = {"quick": 75.0, "thorough": 1200.0}
+    budgets = {"quick": 150.0, "thorough": 1800.0}
     case_timeout = 90.0
 
     def floors(self, tier):
@@ -846,7 +846,7 @@ class C14(DirectSpec):
         "minimize(seed=...) twice; public snapshots + call-log digests compared; distinct non-trivial = distinct engine mixes that produced >=2 demes and draw from >=2 random sources"
     )
     sizes = {"quick": 64, "thorough": 640}
-    budgets = {"quick": 80.0, "thorough": 1500.0}
+    budgets = {"quick": 200.0, "thorough": 2400.0}
     case_timeout = 200.0
 
     def floors(self, tier):
@@ -865,7 +865,7 @@ class C19(DirectSpec):
         "monitors and compared with the live tree's own future; distinct non-trivial = distinct (engine mix, k, hibernation, objective form) snapshots of trees with >=2 demes"
     )
     sizes = {"quick": 48, "thorough": 500}
-    budgets = {"quick": 80.0, "thorough": 1500.0}
+    budgets = {"quick": 200.0, "thorough": 2400.0}
     case_timeout = 240.0
 
     def floors(self, tier):
@@ -952,7 +952,7 @@ class C10(DirectSpec):
         "plus the same oracles on every generator / filter application of real runs through taps; distinct non-trivial = distinct (filter, direction, tie pattern, occupancy) in which the filter removed something but not everything"
     )
     sizes = {"quick": 400, "thorough": 12000}
-    budgets = {"quick": 75.0, "thorough": 1200.0}
+    budgets = {"quick": 150.0, "thorough": 1800.0}
 
     def floors(self, tier):
         fl = []
